@@ -315,6 +315,17 @@ func (m *Machine) packageScan() *FuncReport {
 						if !safeArg(t) {
 							bad = append(bad, fmt.Sprintf("%s formats a %s", m.site(ins), t.String()))
 						}
+						// an error is chained (newCodecError keeps a trailing error as the cause), never copied into the
+						// text of the error that wraps it: one copy per nesting level makes the cost quadratic in the depth
+						if isErrorType(t) {
+							chained := false
+							if callee := ci.Common().StaticCallee(); callee != nil && callee.Name() == "newCodecError" && k == len(vals)-1 {
+								chained = true
+							}
+							if !chained {
+								bad = append(bad, fmt.Sprintf("%s copies an error into a message", m.site(ins)))
+							}
+						}
 					}
 				}
 			}
